@@ -228,6 +228,15 @@ def _stored_obs(names, folder):
         return out
 
 
+def _effectively_sequential(c):
+    """prepare_run/_cannot_be_parallelized: parallel=True without an executor runs sequentially in this process when
+    no function has a MapSpec and every generation is a single function (mirrored by Run_C13.eff_flags)."""
+    if c["mode"] == "seq":
+        return True
+    return (c["mode"] == "procdefault" and all(f.get("spec") is None for f in c["req"]["funcs"])
+            and all(len(g) == 1 for g in c["gens"]))
+
+
 def _run_map(c):
     req, mode = c["req"], c["mode"]
     tmp = tempfile.mkdtemp(prefix="verif_c13_", dir=TMP_BASE)
@@ -249,17 +258,14 @@ def _run_map(c):
         except Exception as e:  # noqa: BLE001
             exc = e
         lines = log.read()
-        if mode != "seq":
+        if not _effectively_sequential(c):
             lines = sorted(lines)
         if exc is None:
             res, note = ["ok"], ["notes", 0]
         else:
             res = _exc_obs(exc, c["exc"])
             note = failsym.notes_obs(exc, mapsym.canon) if getattr(exc, "__notes__", None) else ["notes", 0]
-        if INPROC[mode]:
-            snap = _snap_obs(pl, c["ffn"], mapsym.canon)
-        else:
-            snap = ["nosnap"] if pl.error_snapshot is None else ["snap-unexpected"]
+        snap = _snap_obs(pl, c["ffn"], mapsym.canon)     # process pools: nothing is set in this process
         by_name = {f["name"]: f for f in req["funcs"]}
         store = _stored_obs([o for g in c["gens"] for n in g for o in by_name[n]["outs"]], folder)
         return [res, note, lines, snap, store]
@@ -338,7 +344,7 @@ def _probe_request(req):
     return gens, log.read()
 
 
-def _gen_map(rng, tier, n_req, modes, max_calls, shared_share=0.04):
+def _gen_map(rng, tier, n_req, modes, max_calls, shared_share):
     cases = []
     tries = 0
     done = 0
@@ -354,9 +360,6 @@ def _gen_map(rng, tier, n_req, modes, max_calls, shared_share=0.04):
         if not (1 <= len(calls) <= max_calls):
             continue
         done += 1
-        # shared_memory_dict starts one manager process per array (~0.5 s each here): keep its share small
-        r = rng.random()
-        req["storage"] = "shared_memory_dict" if r < shared_share else ("dict" if r < 0.5 else "file_array")
         seen = set()
         for i, tgt in enumerate(calls):
             if tgt in seen:
@@ -365,11 +368,14 @@ def _gen_map(rng, tier, n_req, modes, max_calls, shared_share=0.04):
             for mode in modes:
                 for kind in _kinds_for(tier, i + len(cases)):
                     r2 = json.loads(json.dumps(req))
-                    if not INPROC[mode] and r2["storage"] == "dict" and rng.random() < 0.5:
-                        r2["storage"] = "file_array"
+                    # shared_memory_dict starts one manager process per array (~0.5 s each here): small share
+                    r = rng.random()
+                    r2["storage"] = ("shared_memory_dict" if r < shared_share
+                                     else ("dict" if r < 0.5 + shared_share / 2 else "file_array"))
                     cases.append({"kind": "map", "req": r2, "gens": gens, "mode": mode, "tgt": tgt,
                                   "ffn": tgt.split("(", 1)[0], "exc": kind, "ncalls": len(calls), "idx": i})
         if rng.random() < 0.3:
+            req["storage"] = rng.choice(["dict", "file_array"])
             cases.append({"kind": "map", "req": req, "gens": gens, "mode": rng.choice(modes), "tgt": "nothing()",
                           "ffn": "nothing", "exc": "V", "ncalls": len(calls), "idx": -1})
     return cases
@@ -378,11 +384,11 @@ def _gen_map(rng, tier, n_req, modes, max_calls, shared_share=0.04):
 def generate(rng, tier, mult):
     if tier == "quick":
         cases = _gen_pipe(rng, tier, 60 * mult)
-        cases += _gen_map(rng, tier, 45 * mult, ["seq", "thread"], max_calls=14)
+        cases += _gen_map(rng, tier, 45 * mult, ["seq", "thread"], max_calls=14, shared_share=0.025)
     else:
-        cases = _gen_pipe(rng, tier, 400 * mult)
-        cases += _gen_map(rng, tier, 120 * mult, ["seq", "thread", "proc", "procdefault", "athread", "aproc"],
-                          max_calls=14)
+        cases = _gen_pipe(rng, tier, 300 * mult)
+        cases += _gen_map(rng, tier, 55 * mult, ["seq", "thread", "proc", "procdefault", "athread", "aproc"],
+                          max_calls=14, shared_share=0.01)
     return cases
 
 
